@@ -11,7 +11,8 @@ TECHNIQUE = _c06.TECHNIQUE
 LEVEL_TEXT = ("Theorems over ALL interleavings of the request-loop model (Loop/Model.v): when the handler of a Tflush has returned, every request "
               "received before it with the flushed tag has passed ClearTag (its handle returned; no backend call of it runs or starts later) - "
               "for any number of flushes, chained flushes and flushes naming each other; flush of own/idle/answered tag can return at once; the wait-for "
-              "relation is acyclic; the flushed request is still answered exactly once. Every run re-checks the proofs, re-extracts the capture "
+              "relation is acyclic; the flushed request is still answered exactly once (Loop/Variants.v: stated on a widened model in which a reply can be skipped and a "
+              "backend call can outlive its handler - unreachable for the flag values tied to the source, fatal otherwise). Every run re-checks the proofs, re-extracts the capture "
               "(TagDone under recvMu, guarded by started && OldTag != tag, before spawn/unlock) and tflush.handle's body from the source, and runs "
               "the real Server.Handle with a request blocked in a gated backend call and 1-3 flushes, recording for every Rflush whether the flushed "
               "request was still inside the backend when it arrived.")
